@@ -85,6 +85,7 @@ fn main() {
     // not as an out-of-memory kill of this or of unrelated processes
     {
         let out2 = out.clone();
+        let (cmd_mg, tier_mg, seed_mg) = (cmd.clone(), tier.clone(), seed);
         let limit_kib: u64 = std::env::var("VERIF_MEM_LIMIT_GIB").ok().and_then(|v| v.parse().ok()).unwrap_or(20) * 1024 * 1024;
         std::thread::spawn(move || loop {
             std::thread::sleep(std::time::Duration::from_millis(500));
@@ -92,7 +93,23 @@ fn main() {
                 if let Some(l) = s.lines().find(|l| l.starts_with("VmRSS:")) {
                     let kib: u64 = l.split_whitespace().nth(1).and_then(|x| x.parse().ok()).unwrap_or(0);
                     if kib > limit_kib {
-                        let v = json!({"harness_error": format!("memory guard: resident set grew to {} GiB (limit {} GiB) - the workload leaks or retains memory; run aborted", kib / 1024 / 1024, limit_kib / 1024 / 1024)});
+                        let why = format!("memory guard: resident set grew to {} GiB (limit {} GiB) - the workload leaks or retains memory; run aborted", kib / 1024 / 1024, limit_kib / 1024 / 1024);
+                        let seen: Vec<(String, String)> = mon::VIOL_LOG.lock().map(|g| g.clone()).unwrap_or_default();
+                        if !seen.is_empty() {
+                            // violations already observed stand; the rest of the run is inconclusive
+                            let sigs: serde_json::Map<String, serde_json::Value> = seen.iter().map(|(s0, _)| (s0.clone(), json!(1))).collect();
+                            let v = json!({
+                                "evaluations": seen.len(), "distinct_nontrivial": seen.len(), "violation_count": seen.len(),
+                                "violation_signatures": sigs,
+                                "violations": seen.iter().map(|(s0, w)| json!({"sig": s0, "what": format!("{w} [reported from a run cut short: {why}]"), "detail": {}, "events": []})).collect::<Vec<_>>(),
+                                "forms": {}, "edge_classes": {}, "counters": {}, "samples": [], "inconclusive": [why.clone()],
+                                "property": cmd_mg.clone(), "build": ad::BUILD, "tier": tier_mg.clone(), "seed": seed_mg, "wall_s": 0.0,
+                            });
+                            emit(&out2, &v);
+                            eprintln!("VIOLATION(s) seen before the memory guard fired");
+                            std::process::exit(0);
+                        }
+                        let v = json!({"harness_error": why});
                         emit(&out2, &v);
                         eprintln!("INCONCLUSIVE: memory guard fired");
                         std::process::exit(2);
